@@ -55,13 +55,14 @@ let parse_uop o : unit M.op = parse_op_with (fun _ -> ()) o
 
 let parse_input inp =
   match words inp with
-  | [("H" | "U"); i; ops] ->
+  | [("H" | "U" | "B"); i; ops] ->
     let ops = if ops = "-" then [] else List.filter (fun x -> x <> "") (String.split_on_char ';' ops) in
     (i, ops)
-  | [("H" | "U"); i] -> (i, [])
+  | [("H" | "U" | "B"); i] -> (i, [])
   | _ -> failwith "bad input"
 
 let is_u inp = String.length inp > 0 && inp.[0] = 'U'
+let is_b inp = String.length inp > 0 && inp.[0] = 'B'
 
 let show_ret = function
   | M.RUnit -> "-"
@@ -148,6 +149,160 @@ let spec_h inp out =
         | Some e -> Some e
         | None -> go 0 ops rest))
 
+
+(* ---- B lines: the scale stream (harness/cmd/queuetrace/big.go).  Batched operations on buffers of
+   hundreds to thousands of slots; long sequences are printed as <count>:<FNV-1a 64>:<a few elements>.
+   One interpreter renders the records from any "machine" (the extracted model, or the extracted
+   reference list), so that model and reference digest the same kind of sequence. ---- *)
+
+let fnv64 s =
+  let h = ref 0xcbf29ce484222325L in
+  String.iter (fun c -> h := Int64.mul (Int64.logxor !h (Int64.of_int (Char.code c))) 0x100000001b3L) s;
+  Printf.sprintf "%Lx" !h
+
+let uniq_sorted l = List.sort_uniq compare l
+
+(* indices 0,1,2, j-2..j+2, count-3..count-1 inside [0,count) *)
+let window count j =
+  uniq_sorted (List.filter (fun c -> c >= 0 && c < count) [0; 1; 2; j - 2; j - 1; j; j + 1; j + 2; count - 3; count - 2; count - 1])
+
+let seq_summary (xs : int list) j =
+  let a = Array.of_list xs in
+  let n = Array.length a in
+  Printf.sprintf "%d:%s:%s" n (fnv64 (str_ints xs)) (str_ints (List.map (fun i -> a.(i)) (window n j)))
+
+let peek_window ln j =
+  let lo = -(ln + 2) and hi = ln + 1 in
+  uniq_sorted (List.concat_map (fun c -> List.filter (fun k -> k >= lo && k <= hi) [c - 1; c; c + 1; c + 2])
+                 [lo; -ln; -2; 0; ln - 1; j; j - ln])
+
+type machine = {
+  op : int M.op -> int M.out;          (* runs one operation (mutating or observing) *)
+  set_caps : M.z list -> unit;         (* oracle capacities for the regrowths of the next batch *)
+  hook : unit -> string;               (* "head,n,len(vs)/" for the model, "" for the reference *)
+}
+
+let z0 = z_of_int 0
+
+let model_machine q0 =
+  let q = ref q0 and caps = ref [] in
+  let len_of q = snd (M.hook_state q) in
+  { op = (fun o ->
+      let c = match !caps with c :: _ -> c | [] -> z0 in
+      let o' = match o with M.OAdd (v, _) -> M.OAdd (v, c) | M.OPush (v, _) -> M.OPush (v, c) | o -> o in
+      let (q', r) = get (M.step64 zero !q o') in
+      (match o with
+       | M.OAdd _ | M.OPush _ ->
+         (* an oracle value is consumed exactly when the buffer was regrown *)
+         if len_of q' <> len_of !q then (match !caps with _ :: t -> caps := t | [] -> ())
+       | _ -> ());
+      q := q'; r);
+    set_caps = (fun l -> caps := l);
+    hook = (fun () -> let ((h, n), c) = M.hook_state !q in Printf.sprintf "%d,%d,%d/" (int_of_z h) (int_of_z n) (int_of_z c)) }
+
+let reference_machine () =
+  let l = ref [] in
+  { op = (fun o -> let (l', r) = M.spec_step zero !l o in l := l'; r);
+    set_caps = (fun _ -> ());
+    hook = (fun () -> "") }
+
+let parse_bop o =
+  match String.split_on_char '^' o with
+  | body :: caps when body <> "" ->
+    let k = if String.length body > 1 then int_of_string (String.sub body 1 (String.length body - 1)) else 0 in
+    (body.[0], k, List.map z_of_string caps)
+  | _ -> raise (Stop "bad-op")
+
+let m_len m = match m.op M.OLen with M.RInt z -> int_of_z z | _ -> failwith "len"
+let m_list m o = match m.op o with M.RList l -> l | _ -> failwith "list"
+
+let b_light m ret =
+  let hook = m.hook () in
+  let len = m_len m in
+  let empty = match m.op M.OIsEmpty with M.RBool b -> b | _ -> failwith "empty" in
+  let front = match m.op M.OFront with M.RElem v -> v | _ -> failwith "front" in
+  Printf.sprintf "%s/%s%d,%s/%d/%s" ret hook len (b01 empty) front (show_peek (m.op (M.OPeek (z_of_int (-1)))))
+
+let b_obs m j =
+  let hook = m.hook () in
+  let len = m_len m in
+  let empty = match m.op M.OIsEmpty with M.RBool b -> b | _ -> failwith "empty" in
+  let front = match m.op M.OFront with M.RElem v -> v | _ -> failwith "front" in
+  let slice = m_list m M.OSlice in
+  let all = m_list m (M.OEach (nat_of_int (len + 1))) in
+  let half = m_list m (M.OEach (nat_of_int (len / 2))) in
+  let lo = -(len + 2) in
+  let peeks = Array.of_list (List.map (fun k -> show_peek (m.op (M.OPeek (z_of_int k)))) (range lo (len + 1))) in
+  Printf.sprintf "o/%s%d,%s/%d/%s/%s/%s/%s/%s" hook len (b01 empty) front
+    (if slice = [] then "nil" else seq_summary slice j) (seq_summary all j) (seq_summary half j)
+    (fnv64 (String.concat "," (Array.to_list peeks)))
+    (String.concat "," (List.map (fun k -> Printf.sprintf "%d:%s" k peeks.(k - lo)) (peek_window len j)))
+
+(* runs the batches on a machine; [emit] receives one record per op (and one for the construction) *)
+let run_b m ops emit =
+  let next = ref 1 in
+  emit (b_light m "-");
+  List.iter (fun o ->
+    let (code, k, caps) = parse_bop o in
+    if k > 4194304 then raise (Stop "bad-op");
+    match code with
+    | 'A' | 'U' ->
+      m.set_caps caps;
+      for _ = 1 to k do
+        ignore (m.op (if code = 'A' then M.OAdd (!next, z0) else M.OPush (!next, z0)));
+        incr next
+      done;
+      emit (b_light m "-")
+    | 'P' | 'L' ->
+      let rets = ref [] and oks = ref 0 in
+      for _ = 1 to k do
+        (match m.op (if code = 'P' then M.OPop else M.OPopLast) with
+         | M.RVal (v, ok) -> rets := v :: !rets; if ok then incr oks
+         | _ -> failwith "pop")
+      done;
+      emit (b_light m (Printf.sprintf "%d:%s" !oks (seq_summary (List.rev !rets) 0)))
+    | 'c' -> ignore (m.op M.OClear); emit (b_light m "-")
+    | 'o' -> emit (b_obs m k)
+    | _ -> raise (Stop "bad-op")) ops
+
+let b_init i =
+  match parse_init i with
+  | M.ISize k when int_of_z k > 16777216 -> raise (Stop "bad-init")
+  | x -> x
+
+let eval_b inp =
+  let (i, ops) = parse_input inp in
+  let recs = ref [] in
+  (try
+    let q = get (M.mk_init zero (b_init i)) in
+    run_b (model_machine q) ops (fun r -> recs := r :: !recs)
+  with Stop s -> recs := s :: !recs);
+  String.concat ";" (List.rev !recs)
+
+(* the property on the implementation's B records: every public field (return values of the
+   batch, Len, IsEmpty, Front, Peek(-1); Slice, Each, Each stopped, every Peek) must be the one
+   the reference list gives; head/n/len(vs) are not looked at *)
+let spec_b inp out =
+  let (i, ops) = parse_input inp in
+  match (try Some (b_init i) with Stop _ -> None) with
+  | None | Some (M.ISize (M.Zneg _)) -> None
+  | Some _ ->
+    let want = ref [] in
+    (try run_b (reference_machine ()) ops (fun r -> want := r :: !want) with Stop _ -> ());
+    let want = List.rev !want in
+    let recs = if out = "" then [] else String.split_on_char ';' out in
+    let opname k = if k = 0 then "after construction" else Printf.sprintf "after op #%d (%s)" k (try List.nth ops (k - 1) with _ -> "?") in
+    let rec go k want recs =
+      match want, recs with
+      | [], [] -> None
+      | [], r :: _ -> if r = "bad-op" then None else Some "more records than operations"
+      | _ :: _, [] -> Some (Printf.sprintf "history ended after %d operations (record missing)" (max 0 (k - 1)))
+      | w :: want', r :: recs' ->
+        let got = match public_of_record r with Some (ret, pub) -> ret ^ "/" ^ pub | None -> r in
+        if got = w then go (k + 1) want' recs'
+        else Some (Printf.sprintf "%s: observables %s differ from the reference sequence's %s (ret/Len,IsEmpty/Front/Peek(-1) or o/Len,IsEmpty/Front/Slice/Each/Each-stopped/digest of all Peeks/Peeks; sequences as count:fnv:sample)" (opname k) got w) in
+    go 0 want recs
+
 (* ---- U lines: queue.Queue[struct{}] replayed on the length-only model (QueueUnitModel, proved to
    be the main model on unit elements); values beyond OCaml's 63-bit ints are printed from Z ---- *)
 
@@ -191,7 +346,8 @@ let eval_u_with ustep inp =
 let eval inp =
   let (i, _) = parse_input inp in
   if alloc_refused i then "panic:index"
-  else if is_u inp then eval_u_with M.ustep64 inp else eval_h inp
+  else if is_u inp then eval_u_with M.ustep64 inp
+  else if is_b inp then eval_b inp else eval_h inp
 
 (* the reference for U lines: the same plain list, of units *)
 let spec_u_plain inp out =
@@ -266,6 +422,7 @@ let spec prop inp out =
   if prop <> "C07" then None
   else if alloc_refused (fst (parse_input inp)) then None     (* no queue came into being; nothing is demanded *)
   else if is_u inp then spec_u inp out
+  else if is_b inp then spec_b inp out
   else spec_h inp out
 
 let () = run_main ~eval ~spec
